@@ -206,7 +206,7 @@ func init() {
 	core.Register(&core.Check{
 		ID:    "C04",
 		Level: "model_checking",
-		Rule: "depth-bounded complete exploration of REPL histories: every sequence of <=3 (thorough 4) inputs over an alphabet of ~40 inputs (define/redefine a callee, closures with identical inner text capturing lower-case / upper-case / function-valued variables, functions that print, fail, read and write globals, wrap a non-deterministic extension, take hashable and unhashable arguments, 5 arguments, -0.0/0.0, 1/1.0/\"1\"/true, recursion, functions whose printed text coincides) run on one persistent state with the function cache on and off (build-tag hook), each with registers on and off. Oracle: identical output (order and multiplicity), shown results and error texts for every input. Non-trivial = every history (each replays real calls); distinct by the input sequence.",
+		Rule: "depth-bounded complete exploration of REPL histories: every sequence of <=3 (thorough 4) inputs over an alphabet of ~40 inputs (define/redefine a callee, closures with identical inner text capturing lower-case / upper-case / function-valued variables, functions that print, fail, read and write globals, wrap a non-deterministic extension, take hashable and unhashable arguments, 5 arguments, -0.0/0.0, 1/1.0/\"1\"/true, recursion, functions whose printed text coincides) run on one persistent state with the function cache on and off (build-tag hook), each with registers on and off. Oracle: identical output (order and multiplicity), shown results and error texts for every input. Non-trivial = every history (each replays real calls); distinct by the input sequence. The alphabet includes names bound nowhere when first read (error caught), constants rebound to equal-but-different values (-0.0 for 0.0, [1.0] for [1]) and same-text functions made by two unjson states.",
 		Assume:      []string{"cache disabled through the verif build-tag hook eval.VerifCacheOff (lookups miss, stores are no-ops)", "non-deterministic extensions modelled by verif_counter() (DontCache)"},
 		QuickCap:    150 * time.Second,
 		ThoroughCap: 20 * time.Minute,
